@@ -1229,13 +1229,14 @@ class Interp:
 
     # ----------------------------------------------------------------------------------- loop rule (unbounded lists)
     def _gen_body_once(self, s, elem, frame, must):
+        target, stmts = s
         """one iteration of the loop body on `elem`; must='complete': paths on which it raises are infeasible and a heap
         write is outside the rule; must='raise': paths on which it completes are infeasible (the exception propagates)"""
         before = self.ctx.mutations
-        self.assign(s.target, elem, frame)
+        self.assign(target, elem, frame)
         try:
             try:
-                self.exec_block(s.body, frame)
+                self.exec_block(stmts, frame)
             except ContinueSig:
                 pass
         except PyRaise:
@@ -1275,18 +1276,53 @@ class Interp:
                        'afterwards) completes iff its body completes on every element and otherwise ends with the exception '
                        'of the first element on which the body raises (induction over the list, done by the rule, not by the '
                        'solver)')
+        # copy statements `<receiver>.append(<loop variable>)` directly in the body are taken out and accounted for by the rule:
+        # the receiver (names / attributes not bound in the body, so the same object in every iteration) must be an empty
+        # list at loop entry; after a loop that completes it holds exactly the elements of L in order; after a loop that
+        # raised it holds an unknown prefix (any later use of it is outside the rule)
+        rest, receivers = [], []
+        for st in s.body:
+            c = st.value if isinstance(st, ast.Expr) else None
+            if isinstance(c, ast.Call) and isinstance(c.func, ast.Attribute) and c.func.attr == 'append' and not c.keywords \
+                    and len(c.args) == 1 and isinstance(c.args[0], ast.Name) and isinstance(s.target, ast.Name) \
+                    and c.args[0].id == s.target.id:
+                r = c.func.value
+                for node in ast.walk(r):
+                    if not isinstance(node, (ast.Name, ast.Attribute, ast.Load)) or isinstance(node, ast.Name) and node.id in bound:
+                        raise Unsupported('loop rule: receiver of the copy statement is not a loop-invariant name/attribute path')
+                receivers.append(r)
+            else:
+                rest.append(st)
+        targets = []
+        for r in receivers:
+            T = self.eval(r, frame)
+            if not isinstance(T, PList) or isinstance(T, PGenList) or T.items or T is L or any(T is t for t in targets):
+                raise Unsupported('loop rule: the list the loop copies into is not a distinct empty list at loop entry')
+            targets.append(T)
+        body = (s.target, rest)
         n = L.n.t
         which = self.ctx.choose([n == 0, n > 0, n > 0], 'loop over a list of unknown length: empty / completes / raises')
         if which == 0:
             return
         if which == 1:
-            self._gen_body_once(s, L.gen, frame, 'complete')
-            L.univ.append(('loop', s, frame))
+            self._gen_body_once(body, L.gen, frame, 'complete')
+            L.univ.append(('loop', body, frame))
             for nm in bound:
                 frame.locals[nm] = POISON
+            for T in targets:
+                self._become_genlist(T, L.n, L.gen, L.new_elem, L.core)
             return
+        for T in targets:
+            self._become_genlist(T, L.n, L.gen, L.new_elem, dict(wit=[], univ=[], dead=True))
         w = self.gen_witness(L)
-        self._gen_body_once(s, w, frame, 'raise')
+        self._gen_body_once(body, w, frame, 'raise')
+
+    def _become_genlist(self, T, n, gen, new_elem, core):
+        """in place (aliases keep pointing at it): the list T now has unknown length"""
+        self.ctx.mutations += 1
+        T.__dict__.pop('items', None)
+        T.__class__ = PGenList
+        T.n, T.gen, T.new_elem, T.core = n, gen, new_elem, core
 
     def gen_witness(self, L):
         """a fresh element of L: everything that is known of EVERY element (loops that completed, branch_all) holds of it"""
